@@ -112,13 +112,17 @@ Definition grp_add (g : ddict) (r : srow) : ddict :=
   let d := match dict_get str_eqb (row_tag r) g with Some d => d | None => [] end in
   dict_set str_eqb (row_tag r) (dict_set N.eqb (row_id r) (row_blob r) d) g.
 
+(* SET serialization = ? on the rows selected by the WHERE clause *)
+Definition upd_row (i : N) (t : tag) (b : blob) (r : srow) : srow :=
+  if where_id_tag i t r then (row_id r, row_tag r, b) else r.
+
 Definition sq_step (T : table) (o : op) : res * table :=
   match o with
   | Create t b =>
     let i := sq_next T in (RId i, T ++ [(i, t, b)])
   | Update t b i =>
     let n := length (filter (where_id_tag i t) T) in
-    let T' := map (fun r => if where_id_tag i t r then (row_id r, row_tag r, b) else r) T in
+    let T' := map (upd_row i t b) T in
     (match n with O => RErr EValue | _ => RCount (N.of_nat n) end, T')
   | Delete t i =>
     (RNone, filter (fun r => negb (where_id_tag i t r)) T)
